@@ -30,6 +30,7 @@ type mutant struct {
 
 func main() {
 	dir := flag.String("dir", "/repo", "package directory")
+	second := flag.Bool("second", false, "second operator set: swapped adjacent statements, duplicated calls/sends")
 	flag.Parse()
 	files, _ := filepath.Glob(filepath.Join(*dir, "*.go"))
 	sort.Strings(files)
@@ -73,6 +74,57 @@ func main() {
 				}
 			}
 			ast.Inspect(fd.Body, func(n ast.Node) bool {
+				if !*second {
+					return true
+				}
+				var list []ast.Stmt
+				switch x := n.(type) {
+				case *ast.BlockStmt:
+					list = x.List
+				case *ast.CaseClause:
+					list = x.Body
+				case *ast.CommClause:
+					list = x.Body
+				}
+				simple := func(st ast.Stmt) bool {
+					switch st.(type) {
+					case *ast.ExprStmt, *ast.AssignStmt, *ast.IncDecStmt, *ast.DeferStmt, *ast.GoStmt, *ast.IfStmt, *ast.SendStmt:
+						return true
+					}
+					return false
+				}
+				for i := 0; i+1 < len(list); i++ {
+					a, b := list[i], list[i+1]
+					if simple(a) && simple(b) {
+						ta, tb := string(src[off(a.Pos()):off(a.End())]), string(src[off(b.Pos()):off(b.End())])
+						add(fn, "swap-stmts", a.Pos(), b.End(), tb+"\n"+ta)
+					}
+				}
+				for _, st := range list {
+					switch y := st.(type) {
+					case *ast.ExprStmt:
+						if _, ok := y.X.(*ast.CallExpr); ok {
+							t := string(src[off(y.Pos()):off(y.End())])
+							add(fn, "dup-call", y.Pos(), y.End(), t+"\n"+t)
+						}
+					case *ast.AssignStmt:
+						if y.Tok == token.ASSIGN {
+							if _, ok := y.Rhs[0].(*ast.CallExpr); ok && len(y.Rhs) == 1 {
+								t := string(src[off(y.Pos()):off(y.End())])
+								add(fn, "dup-assign-call", y.Pos(), y.End(), t+"\n"+t)
+							}
+						}
+					case *ast.SendStmt:
+						t := string(src[off(y.Pos()):off(y.End())])
+						add(fn, "dup-send", y.Pos(), y.End(), t+"\n"+t)
+					}
+				}
+				return true
+			})
+			ast.Inspect(fd.Body, func(n ast.Node) bool {
+				if *second {
+					return false
+				}
 				switch x := n.(type) {
 				case *ast.BinaryExpr:
 					swap := map[token.Token][]string{
@@ -169,8 +221,12 @@ func main() {
 			})
 		}
 	}
+	prefix := "g"
+	if *second {
+		prefix = "h"
+	}
 	for i := range out {
-		out[i].ID = fmt.Sprintf("g%04d-%s-%d-%s", i, strings.TrimSuffix(out[i].File, ".go"), out[i].Line, strings.ReplaceAll(strings.ReplaceAll(out[i].Op, " ", ""), ">", ""))
+		out[i].ID = fmt.Sprintf(prefix+"%04d-%s-%d-%s", i, strings.TrimSuffix(out[i].File, ".go"), out[i].Line, strings.ReplaceAll(strings.ReplaceAll(out[i].Op, " ", ""), ">", ""))
 	}
 	enc := json.NewEncoder(os.Stdout)
 	enc.SetIndent("", " ")
